@@ -109,7 +109,10 @@ fn check_inner(corpus: usize, cfg: usize, with_dict: bool) -> Option<String> {
     if got.len() != md.tag_models.len() {
         return Some("a token has two tag models".into());
     }
-    if got != want {
+    // "exactly the distinct tags observed for that token, each once": compared per category as sorted lists (the statement
+    // does not fix the order in which a category lists its tags; duplicates still show as a longer list)
+    let sorted = |o: &Observed| -> Observed { o.iter().map(|(k, v)| (k.clone(), v.iter().map(|c| { let mut c = c.clone(); c.sort(); c }).collect())).collect() };
+    if sorted(&got) != sorted(&want) {
         return Some(format!("listed tags differ: expected {:?} actual {:?}", want, got));
     }
     // 2. score vectors sized to the number of trainable candidates
